@@ -27,23 +27,25 @@ def ble : Bytes → Bytes → Bool
 /-- `bytes.Compare a b < 0`. -/
 def blt (a b : Bytes) : Bool := !ble b a
 
-/-! ### ordered key/value store -/
+/-! ### ordered key/value store (values of any type; C10 reuses it) -/
 
-abbrev DB := List (Bytes × Bytes)
+abbrev Store (β : Type) := List (Bytes × β)
+
+abbrev DB := Store Bytes
 
 /-- keys strictly ascending. -/
-def Sorted (db : DB) : Prop := db.Pairwise (fun a b => blt a.1 b.1 = true)
+def Sorted {β : Type} (db : Store β) : Prop := db.Pairwise (fun a b => blt a.1 b.1 = true)
 
-def put : DB → Bytes → Bytes → DB
+def put {β : Type} : Store β → Bytes → β → Store β
   | [], k, v => [(k, v)]
   | (k', v') :: r, k, v =>
     if blt k k' then (k, v) :: (k', v') :: r
     else if k = k' then (k, v) :: r
     else (k', v') :: put r k v
 
-def erase (db : DB) (k : Bytes) : DB := db.filter (fun e => e.1 != k)
+def erase {β : Type} (db : Store β) (k : Bytes) : Store β := db.filter (fun e => e.1 != k)
 
-def get (db : DB) (k : Bytes) : Option Bytes := (db.find? (fun e => e.1 == k)).map (·.2)
+def get {β : Type} (db : Store β) (k : Bytes) : Option β := (db.find? (fun e => e.1 == k)).map (·.2)
 
 /-! ### key encoding (mvcc.go) -/
 
